@@ -167,10 +167,20 @@ func c11Reference(content string, id int, ignoreCosmetic bool) (out []c11Entry) 
 }
 
 func c11Scan(s *filterlist.RuleStorage) (out []c11Entry) {
+	return c11ScanWith(s, nil)
+}
+
+// c11ScanWith scans the storage and calls during (if not nil) for every entry
+// while the scan is in progress.
+func c11ScanWith(s *filterlist.RuleStorage, during func(e c11Entry)) (out []c11Entry) {
 	sc := s.NewRuleStorageScanner()
 	for sc.Scan() {
 		r, idx := sc.Rule()
-		out = append(out, c11Entry{Kind: c11Kind(r), Text: r.Text(), List: r.GetFilterListID(), Idx: idx})
+		e := c11Entry{Kind: c11Kind(r), Text: r.Text(), List: r.GetFilterListID(), Idx: idx}
+		out = append(out, e)
+		if during != nil {
+			during(e)
+		}
 	}
 
 	return out
@@ -279,7 +289,37 @@ func c11Run(c *core.Ctx, idx int) {
 	defer fileStorage.Close()
 
 	check := func(backing string, s *filterlist.RuleStorage) bool {
-		got := c11Scan(s)
+		var got []c11Entry
+		if c.Rng.Intn(3) == 0 {
+			// The indexes are used while the scan is still running (retrieve
+			// what was just reported, and now and then something reported
+			// earlier): the scan goes on undisturbed.
+			var sofar []c11Entry
+			mismatch := ""
+			got = c11ScanWith(s, func(e c11Entry) {
+				sofar = append(sofar, e)
+				if c.Rng.Intn(2) == 0 {
+					return
+				}
+				t := e
+				if c.Rng.Intn(3) == 0 {
+					t = sofar[c.Rng.Intn(len(sofar))]
+				}
+				r, rerr := s.RetrieveRule(t.Idx)
+				c.Eval(1)
+				if mismatch == "" && (rerr != nil || r == nil || c11Kind(r) != t.Kind || r.Text() != t.Text || r.GetFilterListID() != t.List) {
+					mismatch = fmt.Sprintf("idx %#x scanned %s %q list %d, retrieved during the scan: %v, %v", t.Idx, t.Kind, t.Text, t.List, r, rerr)
+				}
+			})
+			c.Event("scans_with_retrievals_in_progress", 1)
+			if mismatch != "" {
+				c.Violation("retrieve-during-scan:"+backing, nil, wit(backing, mismatch), "%s-backed storage: %s", backing, mismatch)
+
+				return false
+			}
+		} else {
+			got = c11Scan(s)
+		}
 		c.Eval(1)
 		if len(got) != len(want) {
 			c.Violation("scan-length:"+backing, nil, wit(backing, fmt.Sprintf("scanned %d rules, reference %d", len(got), len(want))),
